@@ -267,12 +267,15 @@ def run_reply(c, P):
     reply = list(b'HTTP/1.1 ') + status + list(b' ') + list(status_text) + CRLF + body + CRLF
     frames = [0x81, 0x01, 0x61]      # a Text frame after the reply: must only be delivered after Ready
     w.default_script = Script(lambda w_, s_: reply + frames, cuts=P.get('cuts', 'one'), end='eof')
+    w.max_waits = 4 * (len(reply) + 8)        # byte-at-a-time delivery needs one selector wait per byte
     w.notes['hs_len'] = len(reply)
     rec = hconn.drive(w, ws, dict(poll=1e9, ping_rate=0, ping_timeout=None, close_timeout=None))
     names = rec.names()
     c.notes['scenario'] = dict(template=t, events=names)
-    if rec.exc is not None or rec.budget is not None:
-        c.fail('C10: iterator failed: %r %r' % (rec.exc, rec.budget))
+    if rec.budget is not None:
+        raise EngineLimit('wait budget of the harness exhausted: %s' % rec.budget)
+    if rec.exc is not None:
+        c.fail('C10: exception escaped the iterator: %r' % (rec.exc,))
     # ---- expected verdict from the generator's ground truth
     key = ws.key
     digest = env.sx_sha1(mk_bytes(items_of(key) + list(constants.WS_KEY))).digest()
